@@ -19,6 +19,7 @@ type Mix struct {
 	CopyTo                                                                          int
 	PinVisit, ResumeVisit                                                           int
 	FaultyMut                                                                       int // a Set/Delete during which one file read fails
+	FaultyFlush                                                                     int // a Flush during which one file write fails (outright or torn), optionally retried
 }
 
 // HistCfg describes how a history is generated.
@@ -183,7 +184,7 @@ func (h *Hist) Step() {
 	}
 	w := []int{mx.Set, mx.SetInvalid, mx.Delete, mx.Get, mx.GetItem, mx.Exist, mx.MinMax, mx.Totals, mx.Visit, mx.Iter, mx.Len,
 		mx.Flush, mx.Evict, mx.Reopen, mx.Snapshot, mx.SnapRead, mx.SnapClose, mx.SnapRevert, mx.SnapOfSnap, mx.SnapMutate,
-		mx.SetCollNew, mx.SetCollExisting, mx.RemoveColl, mx.GetColl, mx.FlushRevert, mx.CollWrite, mx.Close, mx.CopyTo, mx.PinVisit, mx.ResumeVisit, mx.FaultyMut}
+		mx.SetCollNew, mx.SetCollExisting, mx.RemoveColl, mx.GetColl, mx.FlushRevert, mx.CollWrite, mx.Close, mx.CopyTo, mx.PinVisit, mx.ResumeVisit, mx.FaultyMut, mx.FaultyFlush}
 	name := h.liveName()
 	op := r.WeightedPick(w)
 	switch op {
@@ -425,6 +426,30 @@ func (h *Hist) Step() {
 			h.Feat["failed-mutation"] = true
 			e.Stats["failed-mutations"]++
 		}
+	case 31: // a Flush that fails on one of its writes; the retry must make everything durable
+		if e.F == nil {
+			return
+		}
+		part := -1
+		if r.P(50) {
+			part = r.Range(1, 40) // torn write (clamped to the write's length)
+		}
+		ft := &vfile.Fault{Nth: r.Range(1, 14), Partial: part}
+		e.Fault = ft
+		e.F.Arm(ft)
+		e.Flush()
+		e.F.Disarm()
+		e.Fault = nil
+		if ft.Fired {
+			h.Feat["failed-flush"] = true
+			e.Stats["failed-flushes"]++
+			if r.P(60) && !e.Failed() {
+				e.Flush() // retried
+				e.Stats["retried-flushes"]++
+			}
+		}
+		h.Feat["flush"] = true
+		h.placement()
 	case 29:
 		for i, p := range e.Pins {
 			if !p.Done && r.P(60) {
